@@ -11,5 +11,8 @@ CONSTANTS
   Vals = {"v1"}
   DefaultMedia = "application/json"
   Randomized = FALSE
+  CkAlpha = {97}
+  CkLen = 0
+  CkTwoPass = FALSE
   EncLen = 3
 INVARIANT EncEmit
